@@ -301,12 +301,14 @@ func (p *untypedParamBinder) setFieldValue(target reflect.Value, defaultValue in
 		data = text
 	}
 
-	ok, err := p.tryUnmarshaler(target, defaultValue, data)
-	if err != nil {
-		return errors.InvalidType(p.Name, p.parameter.In, tpe, data)
-	}
-	if ok {
-		return nil
+	if tpe != "byte" { // base64 is decoded below: both the standard and the URL-safe alphabets are accepted
+		ok, err := p.tryUnmarshaler(target, defaultValue, data)
+		if err != nil {
+			return errors.InvalidType(p.Name, p.parameter.In, tpe, data)
+		}
+		if ok {
+			return nil
+		}
 	}
 
 	defVal := reflect.Zero(target.Type())
@@ -316,7 +318,7 @@ func (p *untypedParamBinder) setFieldValue(target reflect.Value, defaultValue in
 
 	if tpe == "byte" {
 		if data == "" {
-			if target.CanSet() {
+			if target.CanSet() && defVal.Kind() == reflect.Slice {
 				target.SetBytes(defVal.Bytes())
 			}
 			return nil
